@@ -18,10 +18,10 @@ NOT_APPLICABLE = {
 META = {
     'C10': {
         'engine': 'E1 verus-extract',
-        'technique': 'Verus contracts on the real encoders (bytes written == grammar function enc(x)) and decoders (requires-free; for all x and tails: rest == enc(x) ++ tail ==> Ok(x), rest\' == tail) of the core data types, with induction lemmas on the byte codec',
+        'technique': 'Verus contracts on the real encoders (bytes written == grammar function enc(x)) and decoders (requires-free; for all x and tails: rest == enc(x) ++ tail ==> Ok(x), rest\' == tail) of the core data types, with induction lemmas on the byte codec; Verus contracts on the real 230-arm instruction encoder / decoder against a grammar function generated from the code on every run (decoder: accepted bytes == enc_instr(result) ++ rest); bounded stand-in (real parser / serialiser / assembler) for the AST containers, libraries and recompilation',
         'design_ref': '§7 C19/C10, §11',
-        'level_text': 'Deductive proof for all values: StackInputs and StackOutputs decode(encode(x)) == x, consuming exactly the bytes written (any trailing bytes untouched); encoders follow the documented grammar; HashFunction tags map back. ASTs, libraries and recompilation are NOT decided.',
-        'level_note': 'Partial claim: only the data-type half of the property is under contract. The AST / library codecs (assembly crate) are outside what was brought into reach (listed under not_decided in the evidence).',
+        'level_text': 'Deductive proof for all values: StackInputs and StackOutputs decode(encode(x)) == x, consuming exactly the bytes written (any trailing bytes untouched); encoders follow the documented grammar; HashFunction tags map back. Instruction codec, all 230 variants and every payload: the encoder writes enc_instr(x), and every byte string the decoder accepts is enc_instr(of the instruction it returns) followed by the unread rest - a decoder arm that returns another variant, reads another width or order cannot verify. Bounded (1626 cases): parser-produced program / module ASTs for every instruction form and container shape, MaslLibrary files and the core data types round-trip to equal objects, identical bytes and the same MAST root.',
+        'level_note': 'Not proved deductively: decoder completeness on the instruction codec (accepts every enc_instr(x)), the AST container / library codecs (string / Vec / BTreeMap code) and recompilation - covered by the bounded stand-in ast_roundtrip only (labelled bounded). Sub-codecs of instruction payloads (Felt, ProcedureId, RpoDigest, AdviceInjectorNode, DebugOptions) are assumed.',
     },
     'C14': {
         'engine': 'E1 verus-extract',
@@ -46,9 +46,9 @@ META = {
     },
     'C08': {
         'engine': 'E1 verus-extract',
-        'technique': 'Verus representation invariant on the real OpBatchAccumulator + loop invariant on batch_ops; postconditions on Join/Split/Loop/Call/Dyn::new; opcode table vs docs',
+        'technique': 'Verus representation invariant on the real OpBatchAccumulator + loop invariant on batch_ops; postconditions on Join/Split/Loop/Call/Dyn::new; opcode table vs docs; bounded stand-in (real assembler + processor) for the invariance / sensitivity clauses',
         'design_ref': '§7 C08',
-        'level_text': 'Deductive proof for all operation sequences: batching keeps order, drops/duplicates nothing (concat of batch ops == input), <= 8 groups/batch, <= 9 ops/group, immediates in the following groups in order, an immediate-carrying op is never 9th, group value = sum opcode_k*128^k (decodes back digit by digit, NOOP = 0 padding), span hash = RPO hash of the concatenated group arrays; control-block hashes are merges in the documented domains; opcode table equals the documented one.',
+        'level_text': 'Deductive proof for all operation sequences: batching keeps order, drops/duplicates nothing (concat of batch ops == input), <= 8 groups/batch, <= 9 ops/group, immediates in the following groups in order, an immediate-carrying op is never 9th, group value = sum opcode_k*128^k (decodes back digit by digit, NOOP = 0 padding), span hash = RPO hash of the concatenated group arrays; control-block hashes are merges in the documented domains; opcode table equals the documented one. Bounded (11 programs, ~1700 compilations): the root is unchanged by comments, whitespace, procedure names, debug mode and decorators at every body position, changes with every operation / immediate, and equals the hash recorded by execute() - except for the open known findings F34 and F35.',
         'level_note': 'Trusted: RPO (hash_elements / merge_in_domain) uninterpreted - collision resistance not assumed; Felt model; flatten_slice_elements contract. DYN_CONSTANT vs real RPO is not re-computed here.',
     },
     'C05': {
@@ -81,10 +81,10 @@ META = {
     },
     'C19': {
         'engine': 'E1 verus-extract',
-        'technique': 'Verus totality proofs (no precondition on the bytes) and invariant-establishing postconditions on the real decoders of core/air types, against assumed ByteReader/ByteWriter contracts',
+        'technique': 'Verus totality proofs (no precondition on the bytes) and invariant-establishing postconditions on the real decoders of core/air types, against assumed ByteReader/ByteWriter contracts; the same for the real 230-arm AST instruction decoder',
         'design_ref': '§7 C19/C10',
-        'level_text': 'Deductive proof for all byte strings: StackOutputs/StackInputs/Kernel decoders and ExecutionProof::from_bytes/HashFunction::try_from return Ok or Err without panicking; accepted StackOutputs/Kernel satisfy the constructors\' invariants (canonical elements, >= 16 items, consistent overflow addresses, <= 255 distinct kernel procedures); StackOutputs::new rejects exactly non-canonical / inconsistent data.',
-        'level_note': 'Trusted: winter-utils reader/writer contracts, std sort/windows helper contracts inside Kernel::new. LibraryPath::read_from is covered by a bounded exhaustive run only (labelled bounded). Not decided: AST / library decoders of the assembly crate, iterator-closure constructors (try_from_values, with_stack_values).',
+        'level_text': 'Deductive proof for all byte strings: StackOutputs/StackInputs/Kernel decoders, ExecutionProof::from_bytes/HashFunction::try_from and the assembly instruction decoder (Instruction::read_from, OpCode::read_from, parse_num_push_params) return Ok or Err without panicking; accepted StackOutputs/Kernel satisfy the constructors\' invariants (canonical elements, >= 16 items, consistent overflow addresses, <= 255 distinct kernel procedures); StackOutputs::new rejects exactly non-canonical / inconsistent data.',
+        'level_note': 'Trusted: winter-utils reader/writer contracts, std sort/windows helper contracts inside Kernel::new. LibraryPath::read_from is covered by a bounded exhaustive run only (labelled bounded). Not decided: AST container / library decoders of the assembly crate (Node, CodeBody, ProcedureAst, ModuleAst, MaslLibrary), iterator-closure constructors (try_from_values, with_stack_values).',
     },
     'C02': {
         'engine': 'E1 verus-extract',
